@@ -44,7 +44,7 @@ def scripts(rnd, quick):
             sc += [set_(1, vt, boundary_values(vt)[2], 0)]
         if ty in (U16, S16):
             sc += ['sweep16 1 0', 'get 1', 'sweep16 1 1', 'get 1', 'sanitise' if ck != 1 else 'get 0']
-        yield sc
+        yield rebased(sc, rnd, 0.3)
 
 
 def run(tier):
